@@ -1,5 +1,6 @@
 import OdcGeo.Model.C16
 import OdcGeo.Model.C16Link
+import OdcGeo.Model.C16Ext
 import OdcGeo.Spec.PySlice
 namespace OdcGeo.C16.Drv
 open OdcGeo OdcGeo.IO OdcGeo.C16
@@ -61,6 +62,38 @@ def parsePt? (s : String) : Option (Rat × Rat) :=
   | _ => none
 
 def fmtRoi (r : Roi) : String := s!"{r.y0}:{r.y1} {r.x0}:{r.x1}"
+
+/-- region token: `B=l;b;r;t;crs` (BoundingBox) or `G=crs=[x;y,x;y,…]` (Geometry coordinates) -/
+def parseRegion? (s : String) : Option Region :=
+  match s.splitOn "=" with
+  | ["B", bb] => (parseBBox? bb).map Region.bbox
+  | ["G", crs, pts] => do
+    let crs ← parseCrs? crs
+    let pts ← parseList? parsePt? pts
+    match pts with
+    | [] => none
+    | p :: ps => pure (Region.geom crs p ps)
+  | _ => none
+
+/-- re-projection table `[x;y;X;Y,…]`: the points pyproj was asked to map and their images -/
+def parseTable? (s : String) : Option (List (Pt × Pt)) :=
+  parseList? (fun e => match (e.splitOn ";").mapM parseRat? with
+    | some [x, y, X, Y] => some ((x, y), (X, Y))
+    | _ => none) s
+
+def lookupPt (tab : List (Pt × Pt)) (p : Pt) : Option Pt := (tab.find? (fun e => e.1 == p)).map (·.2)
+
+/-- the abstract `Reproj` of the model instantiated by the table.  `none` when a point the model
+needs is missing from the table (the op is then refused as `bad-op`: no default is invented). -/
+def reprojOf? (tab : List (Pt × Pt)) (needed : List Pt) : Option Reproj :=
+  if needed.all (fun p => (lookupPt tab p).isSome) then
+    some (fun _ _ p => match lookupPt tab p with | some q => q | none => p)
+  else none
+
+def fmtPts (ps : List Pt) : String := fmtList (fun (p : Pt) => s!"{fmtRat p.1};{fmtRat p.2}") ps
+
+def parseForm? (s : String) : Option SeqForm :=
+  if s = "list" then some .list else if s = "tuple" then some .tuple else none
 
 def run (args : List String) : Option String :=
   match args with
@@ -163,6 +196,65 @@ def run (args : List String) : Option String :=
   | ["snap", a, b] => do
     let a ← parseGeoBox? a; let b ← parseGeoBox? b
     pure (fmtRes fmtGeoBox (a.snapTo b))
+  | ["gbbox", g] => do
+    let g ← parseGeoBox? g
+    pure (fmtBBoxQ g.boundingbox)
+  | ["gextent", g] => do
+    let g ← parseGeoBox? g
+    pure (fmtPts (g.extentHead :: g.extentTail))
+  | ["tpix", g, tx, ty] => do
+    let g ← parseGeoBox? g; let tx ← parseRat? tx; let ty ← parseRat? ty
+    pure (fmtGeoBox (g.translatePix tx ty))
+  | ["proj", g, crs, pts, tab] => do
+    let g ← parseGeoBox? g; let crs ← parseCrs? crs
+    let pts ← parseList? parsePt? pts; let tab ← parseTable? tab
+    match pts with
+    | [] => none
+    | p :: ps =>
+      let needed := if crs = none ∨ g.crs = none ∨ crs = g.crs then [] else p :: ps
+      let rp ← reprojOf? tab needed
+      pure (fmtRes (fun (r : Option Nat × Pt × List Pt) => s!"{fmtCrs r.1} {fmtPts (r.2.1 :: r.2.2)}")
+        (g.project rp crs p ps))
+  | ["enclr", g, r, tab] => do
+    let g ← parseGeoBox? g; let r ← parseRegion? r; let tab ← parseTable? tab
+    let needed := if r.crs = none ∨ g.crs = none ∨ r.crs = g.crs then [] else r.head :: r.tail
+    let rp ← reprojOf? tab needed
+    pure (fmtRes fmtGeoBox (g.enclosingRegion rp r))
+  | ["bbeq", a, b] => do
+    let a ← parseBBox? a; let b ← parseBBox? b
+    pure (fmtBool (a.eqBB b))
+  | ["bbeqt", a, t] => do
+    let a ← parseBBox? a; let t ← parseList? parseRat? t
+    pure (fmtBool (a.eqTuple t))
+  | ["bbitem", a, i] => do
+    let a ← parseBBox? a; let i ← parseInt? i
+    pure (fmtRes fmtRat (a.getItem i))
+  | ["bbseq", a] => do
+    let a ← parseBBox? a
+    pure s!"{a.len} {fmtList fmtRat a.toList} {fmtRat a.rangeX.1};{fmtRat a.rangeX.2} {fmtRat a.rangeY.1};{fmtRat a.rangeY.2} {fmtPts a.points}"
+  | ["bbaspect", a] => do
+    let a ← parseBBox? a
+    pure (fmtRes fmtRat a.aspect)
+  | ["splitt", x, y] => do
+    let x ← parseRat? x; let y ← parseRat? y
+    let (w, p) := splitTranslation (x, y)
+    pure s!"{fmtRat w.1} {fmtRat w.2} {fmtRat p.1} {fmtRat p.2}"
+  | ["splitff", x] => do
+    let x ← parsePyF? x
+    let (w, p) := splitFloatF x
+    pure s!"{fmtPyF w} {fmtPyF p}"
+  | ["almostintf", x, tol] => do
+    let x ← parsePyF? x; let tol ← parseRat? tol
+    pure (fmtBool (isAlmostIntF x tol))
+  | ["mzerof", x, tol] => do
+    let x ← parsePyF? x; let tol ← parseRat? tol
+    pure (fmtPyF (maybeZeroF x tol))
+  | ["unionf", form, gs] => do
+    let form ← parseForm? form; let gs ← parseList? parseGeoBox? gs
+    pure (fmtRes fmtGeoBox (geoboxUnionForm form gs))
+  | ["interf", form, gs] => do
+    let form ← parseForm? form; let gs ← parseList? parseGeoBox? gs
+    pure (fmtRes fmtGeoBox (geoboxIntersectionForm form gs))
   | ["sel", n, a, b] => do
     -- Spec/PySlice validation: indices of a length-n axis selected by `a:b`
     let n ← parseNat? n; let a ← parseInt? a; let b ← parseInt? b
